@@ -16,6 +16,11 @@ pub fn base_module(g: &Grammar, t: &dyn Fn(&str, &str) -> String) -> String {
 }
 
 thread_local! {
+    /// axis kind written for the AXIS_DESCR blocks that carry an AXIS_PTS_REF (default COM_AXIS)
+    static AXIS_ATTR: std::cell::Cell<&'static str> = const { std::cell::Cell::new("COM_AXIS") };
+}
+
+thread_local! {
     /// build the base module with one AXIS_DESCR more than the type permits on C and TC (positions SURPLUS_AXIS_DESCR.*)
     static SURPLUS: std::cell::Cell<bool> = const { std::cell::Cell::new(false) };
 }
@@ -30,6 +35,7 @@ pub fn base_module_surplus(g: &Grammar, t: &dyn Fn(&str, &str) -> String) -> Str
 /// `extras`: one more, unreferenced, element at the end of every list that the editing histories work on
 pub fn base_module_ex(g: &Grammar, t: &dyn Fn(&str, &str) -> String, extras: bool) -> String {
     let ad = |prefix: &str, attr: &str, refkid: Option<KSpec>| {
+        let attr = if attr == "COM_AXIS" { AXIS_ATTR.with(|a| a.get()) } else { attr };
         let mut a = ks("AXIS_DESCR", &[("attribute", attr), ("input_quantity", &t(&format!("{prefix}.AXIS_DESCR.input_quantity"), "M")), ("conversion", &t(&format!("{prefix}.AXIS_DESCR.conversion"), "CM"))]);
         a.set.push(("lower_limit".into(), "1".into()));
         a.set.push(("upper_limit".into(), "2".into()));
@@ -562,6 +568,16 @@ pub fn run(tier: &str) -> Run {
             let a = alt.clone();
             let text = base_module_surplus(&g, &move |id, d| if id == p { a.clone() } else { d.to_string() });
             cases.push(Case11 { label: format!("{pos} -> {alt}"), pos: pos.to_string(), text, expect });
+        }
+    }
+    // a dangling AXIS_PTS_REF under every axis kind (the reference is examined whatever the kind says about its use)
+    for attr in ["STD_AXIS", "FIX_AXIS", "COM_AXIS", "RES_AXIS", "CURVE_AXIS"] {
+        for pos in ["CHARACTERISTIC.AXIS_DESCR.AXIS_PTS_REF", "TYPEDEF_CHARACTERISTIC.AXIS_DESCR.AXIS_PTS_REF", "CHARACTERISTIC.AXIS_DESCR.input_quantity", "CHARACTERISTIC.AXIS_DESCR.conversion"] {
+            AXIS_ATTR.with(|a| a.set(attr));
+            let p = pos.to_string();
+            let text = base_module(&g, &move |id, d| if id == p { "MISSING".to_string() } else { d.to_string() });
+            AXIS_ATTR.with(|a| a.set("COM_AXIS"));
+            cases.push(Case11 { label: format!("{pos} -> MISSING with axis kind {attr}"), pos: format!("{pos}[{attr}]"), text, expect: Some("MISSING".into()) });
         }
     }
     {
